@@ -47,8 +47,9 @@ def patterns(rnd, files, line_no):
     rels = sorted(files)
     def one():
         f = rnd.choice(rels); parts = f.split("/")
-        k = rnd.choice(("lit", "dir", "ext", "star", "q", "cls", "line", "deep"))
-        return {"lit": f, "dir": (parts[0] + "/*") if len(parts) > 1 else "*.py", "ext": "*" + os.path.splitext(f)[1], "star": "*" + parts[-1][1:], "q": f[:-4] + "?" + f[-3:], "cls": f[:-4] + "[0-9]" + f[-3:],
+        k = rnd.choice(("lit", "dir", "ext", "star", "q", "cls", "line", "deep", "basename"))
+        return {"basename": parts[-1],      # a bare file name matches the file of that name at the top of the target only (the same name exists in several directories)
+                "lit": f, "dir": (parts[0] + "/*") if len(parts) > 1 else "*.py", "ext": "*" + os.path.splitext(f)[1], "star": "*" + parts[-1][1:], "q": f[:-4] + "?" + f[-3:], "cls": f[:-4] + "[0-9]" + f[-3:],
                 "line": f + ":" + str(line_no), "deep": "*/" + parts[-1]}[k]
     out = [one() for _ in range(rnd.randint(1, 3))]
     # the same glob once bare and once (or twice) with a :line suffix, in either order; duplicates of a pattern
